@@ -1883,6 +1883,7 @@ pub struct IsoEvent {
     pub cap: i64,
     pub lim: i64,
     pub newrel: Vec<[i64; 3]>,  // blocks born: offset in chunk, size, align
+    pub addrdep: u8,            // this arena has made a request aligned above the chunk alignment
 }
 
 pub fn iso_of(e: &Event, solo: bool) -> IsoEvent {
@@ -1915,6 +1916,7 @@ pub fn iso_of(e: &Event, solo: bool) -> IsoEvent {
         cap: e.cap,
         lim: e.lim,
         newrel: e.new.iter().map(|n| [rel_of(n[1]), n[2], n[3]]).collect(),
+        addrdep: 0,
     }
 }
 
